@@ -18,11 +18,21 @@ from pwsa import model  # noqa: E402
 
 def overlay_of(edits):
     ov = {}
-    for rel, old, new in edits:
+    for ed in edits:
+        rel, old, new = ed[:3]
         src = ov.get(rel)
         if src is None:
             with open(os.path.join(model.REPO, rel), encoding='utf-8') as f:
                 src = f.read()
+        if len(ed) > 3:
+            # (rel, old, new, k): replace the k-th occurrence (0-based)
+            pos = -1
+            for _ in range(ed[3] + 1):
+                pos = src.find(old, pos + 1)
+                if pos < 0:
+                    return None, '%s: occurrence %d not found' % (rel, ed[3])
+            ov[rel] = src[:pos] + new + src[pos + len(old):]
+            continue
         if src.count(old) != 1:
             return None, '%s: old text occurs %d times' % (rel,
                                                            src.count(old))
